@@ -76,13 +76,6 @@ Definition oracle_b (c : case) : bool :=
       && forallb (fun x => match x with ((_, a), (_, b)) => oval_eqb a b end) (combine p s)
   end.
 
-(* Known finding class 1 (SdkCancelAmountsAboveI128Max): the SDK Pool type does not override
-   checked_cancel_amounts; the trait default converts min(long, short) to i128 and fails above i128::MAX
-   where the program's override succeeds. *)
-Definition known_b (c : case) : Z :=
-  match c with
-  | PoolOp op byte l s _ _ p sd =>
-      if String.eqb op "cancel" && negb (pure byte) && (2 ^ 127 - 1 <? Z.min l s)
-         && pres_eqb p (cancel_prog byte l s) && pres_eqb sd RErr then 1 else 0
-  | _ => 0
-  end.
+(* No known finding: class 1 (SdkCancelAmountsAboveI128Max) was repaired by fix c40-sdk-pool-cancel-override;
+   the SDK's old failing output is a plain violation again (negative/C40.txt). *)
+Definition known_b (c : case) : Z := 0.
